@@ -43,6 +43,7 @@ fn main() {
         "strategy" => tvh::strategy::run(&mut rng, thorough, &corpus),
         "wire" => tvh::wire::run(&mut rng, thorough, &corpus),
         "chan" => tvh::chan::run(&mut rng, thorough, &corpus),
+        "stack" => tvh::stack::run(&mut rng, thorough, &corpus),
         "tui" => tvh::tui::run(&mut rng, thorough, &corpus),
         _ => { eprintln!("unknown component {comp}"); std::process::exit(2); }
     };
